@@ -21,7 +21,9 @@ SINKS = ["VNullSink", "VFileSink", "FloatDataSink"]
 FAULTS = ["VBadWriter", "VBoom", "VBadType", "VCtxBadWriter"]
 SLICEABLE_OPS = ["VMul", "VMulDefault", "VAdd", "VAddDefault", "VAffine", "VAddNote", "FloatSquareOperation"]
 SLICEABLE_PROBES = ["VValueProbe", "VScaledProbe", "VOffsetProbe"]
-SWEEP_OPS = ["VMul", "VMulDefault", "VAdd", "VAffine", "VAddNote"]
+ODD_EXC = ["unicode_decode", "unicode_encode", "exception_group", "os_error", "key_error_tuple", "stop_iteration",
+           "empty_message", "two_arg_custom", "zero_division"]
+SWEEP_OPS = ["VMul", "VMulDefault", "VAdd", "VAffine", "VAddNote", "VPoly"]
 SWEEP_PROBES = ["VScaledProbe", "VOffsetProbe"]
 SWEEP_SRCS = ["VSrc", "VSrcDefault"]
 
@@ -244,6 +246,9 @@ class Gen:
                 node = {"processor": f}
                 if f == "VBoom" and self.chance(0.5):
                     node["parameters"] = {"fuse": rng.choice([0.0, 1.0, 2.0])}
+                elif f == "VBoom" and force_fault is None and self.chance(0.3):
+                    # processor error of a class that is not "one message string" (UnicodeDecodeError, ExceptionGroup, ...)
+                    node = {"processor": "VRaise", "parameters": {"exc": rng.choice(ODD_EXC)}}
             # ---------------- by current data type
             elif cur == "NoData" or (wrong_type and self.chance(0.3)):
                 name = rng.choice(SOURCES)
